@@ -30,6 +30,7 @@ SchemaEq(s, o) == /\ DOMAIN s.tabs = DOMAIN o.T
                   /\ \A t \in DOMAIN s.tabs : \A i \in 1..Len(o.T[t]) : Len(o.T[t][i]) = Len(o.C[t])
                   /\ IxSpec(s) = IxSet(o)
                   /\ DOMAIN s.views = Range(o.vw)
+                  /\ (("tg" \in DOMAIN o) => { s.trg[i].n : i \in 1..Len(s.trg) } = Range(o.tg))
 DataEq(s, o)   == \A t \in DOMAIN s.tabs : ObsBagEq(s.tabs[t].rows, o.T[t])
 StateEq(s, o)  == SchemaEq(s, o) /\ DataEq(s, o) /\ s.txn.active = o.txn
 Adopt(s, o)    == [s EXCEPT !.tabs = [t \in DOMAIN s.tabs |-> [s.tabs[t] EXCEPT !.rows = o.T[t]]]]
@@ -80,8 +81,10 @@ Step(e) ==
       \* index registry observed after reloading a dump is taken over
       ObsIdx(ob) == [n \in { ob.ix[k].n : k \in 1..Len(ob.ix) } |->
                        LET k == CHOOSE k \in 1..Len(ob.ix) : ob.ix[k].n = n IN [t |-> ob.ix[k].t, cols |-> ob.ix[k].cols, uq |-> ob.ix[k].uq]]
-      exp == IF e.a.a = "saveload" /\ e.a.fmt = "sql" /\ exp1.out = "ok" /\ e.out = "ok"
-             THEN [exp1 EXCEPT !.st.idx = ObsIdx(e.st)] ELSE exp1
+      exp2 == IF e.a.a = "saveload" /\ e.a.fmt = "sql" /\ exp1.out = "ok" /\ e.out = "ok"
+              THEN [exp1 EXCEPT !.st.idx = ObsIdx(e.st)] ELSE exp1
+      \* two conforming post-states: follow the one the implementation shows
+      exp == IF exp2.altst # NoAlt /\ ~StateEq(exp2.st, e.st) /\ StateEq(exp2.altst, e.st) THEN [exp2 EXCEPT !.st = exp2.altst] ELSE exp2
       o   == e.st
   IN IF e.out = "panic" THEN
         /\ bad' = IF NBad("panic") < MaxBad THEN Append(bad, BadRec(e, "panic", exp.out, "", <<>>)) ELSE bad
